@@ -295,6 +295,9 @@ func c06History(c *fw.Ctx, env *c06Env, base *lib.Tree, hist int, hseed int64, p
 				o.ret = now()
 				rec(o)
 				rec(c06Op{kind: "add", key: "name:" + name, call: o.call, ret: o.ret})
+				if len(al) > 0 {
+					rec(c06Op{kind: "add", key: "name:" + alias, call: o.call, ret: o.ret})
+				}
 				// (c) never half-built: the freshly registered format, seen through Lookup
 				for _, nm := range append([]string{name}, al...) {
 					lk := mimetype.Lookup(nm)
@@ -320,10 +323,11 @@ func c06History(c *fw.Ctx, env *c06Env, base *lib.Tree, hist int, hseed int64, p
 			}
 		})
 	}
-	// probe-A readers: one per parent, three entry points
-	for pi := range env.parents {
-		pi := pi
-		client(20+pi, func(id int, rr *rand.Rand, rec func(c06Op)) {
+	// probe-A readers: two per parent (a freshly registered format is detected
+	// for the first time by several goroutines at once), three entry points
+	for pj := 0; pj < 2*len(env.parents); pj++ {
+		pi := pj % len(env.parents)
+		client(20+pj, func(id int, rr *rand.Rand, rec func(c06Op)) {
 			p := env.parents[pi]
 			for i := 0; i < 45; i++ {
 				o := c06Op{kind: "readA", key: "ext:" + p.key, call: now()}
@@ -338,8 +342,13 @@ func c06History(c *fw.Ctx, env *c06Env, base *lib.Tree, hist int, hseed int64, p
 				}
 				o.ret = now()
 				o.out = c06ParseN(m.String())
-				o.outs = lib.ChainOf(m).String()
+				ch := lib.ChainOf(m)
+				o.outs = ch.String()
 				rec(o)
+				// returned values are never half-built: the hierarchy ends at the root
+				if len(ch) < 2 || ch[len(ch)-1].T != "application/octet-stream" {
+					c.Violate("half-built-result", "result-chain "+p.key, fmt.Sprintf("a detection of the %s probe returned the hierarchy %s, which does not end at application/octet-stream", p.key, ch), payload("half-built-result", p.key))
+				}
 				if rr.Intn(3) == 0 {
 					pace(5)
 				}
@@ -396,8 +405,12 @@ func c06History(c *fw.Ctx, env *c06Env, base *lib.Tree, hist int, hseed int64, p
 				pi := rr.Intn(len(env.parents))
 				n := 1 + rr.Intn(maxN-1)
 				name := c06Name(hist, n, env.parents[pi].key)
-				o := c06Op{kind: "lookup", key: "name:" + name, call: now()}
-				lk := mimetype.Lookup(name)
+				lname := name
+				if i%3 == 0 { // through the alias (registered for alias shapes 1-4, never for shape 0)
+					lname = strings.ToLower(name) + "-alias"
+				}
+				o := c06Op{kind: "lookup", key: "name:" + lname, call: now()}
+				lk := mimetype.Lookup(lname)
 				o.ret = now()
 				if lk != nil {
 					o.out = 1
